@@ -8,6 +8,7 @@ import (
 	"testing"
 
 	"github.com/free5gc/ike/security"
+	"github.com/free5gc/ike/security/dh"
 	"github.com/free5gc/ike/security/encr"
 	"github.com/free5gc/ike/security/esn"
 	"github.com/free5gc/ike/security/integ"
@@ -68,7 +69,13 @@ func childSA(e, i int) *security.ChildSAKey {
 
 // deriveChild runs GenerateKeyForChildSA and returns the four keys.
 func deriveChild(sa *security.IKESAKey, e, i int, nonce []byte) (ref.ChildKeys, error) {
-	return deriveChildOn(childSA(e, i), sa, nonce)
+	c := childSA(e, i)
+	if len(nonce)%2 == 1 {
+		// the Child SA was negotiated with a Diffie-Hellman transform (PFS): a descriptor on the object, nothing the keys of
+		// RFC 7296 2.17 depend on in this library (the caller mixes g^ir into the nonce argument itself)
+		c.DhInfo = dh.StrToType(ref.DHs[(len(nonce)/2)%2].Name)
+	}
+	return deriveChildOn(c, sa, nonce)
 }
 
 // deriveChildOn keys an existing Child SA object.
@@ -411,6 +418,9 @@ var c17History = probe.Define("C17", "history", func(t *rapid.T) c17In {
 
 func TestC17(t *testing.T) {
 	c := probe.NewCtx(t, "C17")
+	if c.Shard == 0 {
+		endurance(c, "C17", "sizes-multiple-of-4096", c.N(48, 400))
+	}
 	idleStart(c, "sa-pair")
 	if c.Shard == 0 {
 		endurance(c, "C17", "protect-unprotect", 70000)
